@@ -422,6 +422,24 @@ def run(ck, prog, ctx):
     check_getters(ck, "GETTER", prog, r"^src/stats/linkage/cluster\.rs$", floor=2)
 
     # ---- constructors: a field named like a parameter is initialised from that parameter, not from a sibling of the same type
+    # the number of input sets is the length of the collected vector, not an iterator's size hint
+    from engines import check_size_hint_counts
+    check_size_hint_counts(ck, "ROLE", prog, r"^src/stats/linkage")
+    ln = prog.one(r"^stats::linkage::Linkage::<'a>::new$")
+    if ln is not None:
+        for pos, st in ln.stmts():
+            if st.k == "assign" and st.rv["k"] == "agg" and st.rv.get("adt", "").endswith("Linkage") and "initial_len" in st.rv.get("fields", []):
+                o = st.rv["ops"][st.rv["fields"].index("initial_len")]
+                at = pvn.of_operand(ln, o)
+                lens = [a for a in at if a[0] == "call" and a[3] == ln.id and a[1].rsplit("::", 1)[-1] == "len"]
+                from_sets = any(params_of(pvn.of_operand(ln, ln.blocks[a[4]].term.args[0]), ln.id) == {1} for a in lens)
+                # (a size hint flowing into the count is reported by the size-hint rule above; a hint that only sizes the vector's
+                # allocation also shows up in the provenance of `sets.len()` and is not a defect)
+                if not lens:
+                    ck.undecided("ROLE", "new/initial_len", "origin of initial_len not recognised (no len() of a collection)", where=ln.where(st.line))
+                else:
+                    ck.ob("ROLE", "new/initial_len", from_sets, "Linkage::new takes the number of input sets from the length of %s" % ("the collected input" if from_sets else "another collection"), where=ln.where(st.line))
+
     ck.rule("CTOR", "in a struct literal, the field `f` of a function with a parameter `f` derives from that parameter (DESIGN 3.9)")
     from engines import check_ctors
     check_ctors(ck, "CTOR", prog, r"^src/stats/linkage", floor=3)
